@@ -7,83 +7,83 @@ open ImathVerif
 
 /-- extracted from the C++ template at T = Sym; 9 path(s) -/
 def C10.extractQuat {α : Type} [Add α] [Sub α] [Mul α] [Div α] [LT α] [DecidableLT α] [DecidableEq α] [OfNat α 0] [OfNat α 1] [OfNat α 2] (sqrt : α → α) (mat : M44 α) : (Quat α) :=
-  let t2009 := (mat.x00 + mat.x11)
-  let t2010 := (t2009 + mat.x22)
-  let t2012 := (sqrt (t2010 + (1 : α)))
-  let t2015 := (((1 : α) / (2 : α)) / t2012)
-  let t2016 := (mat.x12 - mat.x21)
-  let t2018 := (mat.x20 - mat.x02)
-  let t2020 := (mat.x01 - mat.x10)
-  let t2024 := (sqrt ((mat.x22 - t2009) + (1 : α)))
-  let t2025 := (t2024 * ((1 : α) / (2 : α)))
-  let t2026 := (t2020 * t2024)
-  let t2027 := (mat.x20 + mat.x02)
-  let t2028 := (t2027 * t2024)
-  let t2029 := (mat.x21 + mat.x12)
-  let t2030 := (t2029 * t2024)
-  let t2031 := (((1 : α) / (2 : α)) / t2024)
-  let t2032 := (t2020 * t2031)
-  let t2033 := (t2027 * t2031)
-  let t2034 := (t2029 * t2031)
-  let t2038 := (sqrt ((mat.x11 - (mat.x22 + mat.x00)) + (1 : α)))
-  let t2039 := (t2038 * ((1 : α) / (2 : α)))
-  let t2041 := (mat.x12 + mat.x21)
-  let t2043 := (mat.x10 + mat.x01)
-  let t2045 := (((1 : α) / (2 : α)) / t2038)
-  let t2052 := (sqrt ((mat.x00 - (mat.x11 + mat.x22)) + (1 : α)))
-  let t2053 := (t2052 * ((1 : α) / (2 : α)))
-  let t2055 := (mat.x01 + mat.x10)
-  let t2057 := (mat.x02 + mat.x20)
-  let t2059 := (((1 : α) / (2 : α)) / t2052)
-  if (0 : α) < t2010 then
-    ⟨(t2012 / (2 : α)), ⟨(t2016 * t2015), (t2018 * t2015), (t2020 * t2015)⟩⟩
+  let t2352 := (mat.x00 + mat.x11)
+  let t2353 := (t2352 + mat.x22)
+  let t2355 := (sqrt (t2353 + (1 : α)))
+  let t2358 := (((1 : α) / (2 : α)) / t2355)
+  let t2359 := (mat.x12 - mat.x21)
+  let t2361 := (mat.x20 - mat.x02)
+  let t2363 := (mat.x01 - mat.x10)
+  let t2367 := (sqrt ((mat.x22 - t2352) + (1 : α)))
+  let t2368 := (t2367 * ((1 : α) / (2 : α)))
+  let t2369 := (t2363 * t2367)
+  let t2370 := (mat.x20 + mat.x02)
+  let t2371 := (t2370 * t2367)
+  let t2372 := (mat.x21 + mat.x12)
+  let t2373 := (t2372 * t2367)
+  let t2374 := (((1 : α) / (2 : α)) / t2367)
+  let t2375 := (t2363 * t2374)
+  let t2376 := (t2370 * t2374)
+  let t2377 := (t2372 * t2374)
+  let t2381 := (sqrt ((mat.x11 - (mat.x22 + mat.x00)) + (1 : α)))
+  let t2382 := (t2381 * ((1 : α) / (2 : α)))
+  let t2384 := (mat.x12 + mat.x21)
+  let t2386 := (mat.x10 + mat.x01)
+  let t2388 := (((1 : α) / (2 : α)) / t2381)
+  let t2395 := (sqrt ((mat.x00 - (mat.x11 + mat.x22)) + (1 : α)))
+  let t2396 := (t2395 * ((1 : α) / (2 : α)))
+  let t2398 := (mat.x01 + mat.x10)
+  let t2400 := (mat.x02 + mat.x20)
+  let t2402 := (((1 : α) / (2 : α)) / t2395)
+  if (0 : α) < t2353 then
+    ⟨(t2355 / (2 : α)), ⟨(t2359 * t2358), (t2361 * t2358), (t2363 * t2358)⟩⟩
   else
     if mat.x00 < mat.x11 then
       if mat.x11 < mat.x22 then
-        if t2024 = (0 : α) then
-          ⟨t2026, ⟨t2028, t2030, t2025⟩⟩
+        if t2367 = (0 : α) then
+          ⟨t2369, ⟨t2371, t2373, t2368⟩⟩
         else
-          ⟨t2032, ⟨t2033, t2034, t2025⟩⟩
+          ⟨t2375, ⟨t2376, t2377, t2368⟩⟩
       else
-        if t2038 = (0 : α) then
-          ⟨(t2018 * t2038), ⟨(t2043 * t2038), t2039, (t2041 * t2038)⟩⟩
+        if t2381 = (0 : α) then
+          ⟨(t2361 * t2381), ⟨(t2386 * t2381), t2382, (t2384 * t2381)⟩⟩
         else
-          ⟨(t2018 * t2045), ⟨(t2043 * t2045), t2039, (t2041 * t2045)⟩⟩
+          ⟨(t2361 * t2388), ⟨(t2386 * t2388), t2382, (t2384 * t2388)⟩⟩
     else
       if mat.x00 < mat.x22 then
-        if t2024 = (0 : α) then
-          ⟨t2026, ⟨t2028, t2030, t2025⟩⟩
+        if t2367 = (0 : α) then
+          ⟨t2369, ⟨t2371, t2373, t2368⟩⟩
         else
-          ⟨t2032, ⟨t2033, t2034, t2025⟩⟩
+          ⟨t2375, ⟨t2376, t2377, t2368⟩⟩
       else
-        if t2052 = (0 : α) then
-          ⟨(t2016 * t2052), ⟨t2053, (t2055 * t2052), (t2057 * t2052)⟩⟩
+        if t2395 = (0 : α) then
+          ⟨(t2359 * t2395), ⟨t2396, (t2398 * t2395), (t2400 * t2395)⟩⟩
         else
-          ⟨(t2016 * t2059), ⟨t2053, (t2055 * t2059), (t2057 * t2059)⟩⟩
+          ⟨(t2359 * t2402), ⟨t2396, (t2398 * t2402), (t2400 * t2402)⟩⟩
 
 /-- extracted from the C++ template at T = Sym; 2 path(s) -/
 def C10.M44.setAxisAngle {α : Type} [Add α] [Sub α] [Mul α] [Div α] [Neg α] [LT α] [LE α] [DecidableLT α] [DecidableLE α] [DecidableEq α] [OfNat α 0] [OfNat α 1] [OfNat α 2] (tmin : α) (tmax : α) (sqrt : α → α) (sin : α → α) (cos : α → α) (m : M44 α) (axis : V3 α) (angle : α) : (M44 α) :=
-  let t544 := (V3.length tmin tmax sqrt ⟨axis.x, axis.y, axis.z⟩)
-  let t546 := (axis.z / t544)
-  let t547 := (axis.y / t544)
-  let t548 := (axis.x / t544)
-  let t2064 := (sin angle)
-  let t2065 := (cos angle)
-  let t2066 := ((1 : α) - t2065)
-  let t2068 := (((0 : α) * (0 : α)) * t2066)
-  let t2069 := (t2068 + t2065)
-  let t2070 := ((0 : α) * t2064)
-  let t2071 := (t2068 + t2070)
-  let t2072 := (t2068 - t2070)
-  let t2076 := (t546 * t2064)
-  let t2078 := ((t548 * t547) * t2066)
-  let t2080 := (t547 * t2064)
-  let t2082 := ((t548 * t546) * t2066)
-  let t2088 := (t548 * t2064)
-  let t2090 := ((t547 * t546) * t2066)
-  if t544 = (0 : α) then
-    ⟨t2069, t2071, t2072, (0 : α), t2072, t2069, t2071, (0 : α), t2071, t2072, t2069, (0 : α), (0 : α), (0 : α), (0 : α), (1 : α)⟩
+  let t894 := (V3.length tmin tmax sqrt ⟨axis.x, axis.y, axis.z⟩)
+  let t895 := (axis.z / t894)
+  let t896 := (axis.y / t894)
+  let t897 := (axis.x / t894)
+  let t2407 := (sin angle)
+  let t2408 := (cos angle)
+  let t2409 := ((1 : α) - t2408)
+  let t2411 := (((0 : α) * (0 : α)) * t2409)
+  let t2412 := (t2411 + t2408)
+  let t2413 := ((0 : α) * t2407)
+  let t2414 := (t2411 + t2413)
+  let t2415 := (t2411 - t2413)
+  let t2419 := (t895 * t2407)
+  let t2421 := ((t897 * t896) * t2409)
+  let t2423 := (t896 * t2407)
+  let t2425 := ((t897 * t895) * t2409)
+  let t2431 := (t897 * t2407)
+  let t2433 := ((t896 * t895) * t2409)
+  if t894 = (0 : α) then
+    ⟨t2412, t2414, t2415, (0 : α), t2415, t2412, t2414, (0 : α), t2414, t2415, t2412, (0 : α), (0 : α), (0 : α), (0 : α), (1 : α)⟩
   else
-    ⟨(((t548 * t548) * t2066) + t2065), (t2078 + t2076), (t2082 - t2080), (0 : α), (t2078 - t2076), (((t547 * t547) * t2066) + t2065), (t2090 + t2088), (0 : α), (t2082 + t2080), (t2090 - t2088), (((t546 * t546) * t2066) + t2065), (0 : α), (0 : α), (0 : α), (0 : α), (1 : α)⟩
+    ⟨(((t897 * t897) * t2409) + t2408), (t2421 + t2419), (t2425 - t2423), (0 : α), (t2421 - t2419), (((t896 * t896) * t2409) + t2408), (t2433 + t2431), (0 : α), (t2425 + t2423), (t2433 - t2431), (((t895 * t895) * t2409) + t2408), (0 : α), (0 : α), (0 : α), (0 : α), (1 : α)⟩
 
 end ImathVerif.Gen
